@@ -10,9 +10,11 @@ def vectors(R, L, W, minW=0):
             yield v
 
 def frames_for(setname):
-    fr = []   # (NT, T, arities, errs, maxc)
+    fr = []   # (NT, T, arities, errs, maxc, seed[, off, noff])
+    lift = [(0, 0)]
     def add(NT, T, v, errs=(), maxc=0):
-        fr.append((NT, T, tuple(v), tuple(errs), maxc, False))
+        for (o, n) in lift:
+            fr.append((NT, T, tuple(v), tuple(errs), maxc, False) + ((o, n) if (o, n) != (0, 0) else ()))
     def seed(NT, T, v, errs=(), maxc=0):
         fr.append((NT, T, tuple(v), tuple(errs), maxc, True))
     def plain(NT, T, R, L, W, maxc=0, minW=0):
@@ -61,6 +63,19 @@ def frames_for(setname):
         seed(6, 9, (3, 3, 1, 3, 3, 1, 2, 1, 3, 1, 4, 0, 1, 1, 3), ())
         seed(1, 8, (3, 3, 3, 3, 3, 2, 3, 1), ())
         seed(3, 9, (0, 2, 4, 3, 5, 2, 1, 3), ((5, 0),))
+    if setname == 'lift':
+        # lifted frames (see gram_frame.hpp): the same enumerations with every real symbol index shifted past a 64-bit (128-bit) word boundary.
+        # T=2: a=61 b=62 <eof>=63 error=64 ; T=3: a=61 b=62 c=63 <eof>=64 error=65 ; nonterminals N0=63 N1=64 ##=65 ; second pair around 128
+        lift[:] = [(61, 0), (0, 63)]
+        for R in (1, 2, 3):
+            plain(2, 2, R, 3, 5 if R < 3 else 4)
+        with_error(2, 2, 1, 3, 3); with_error(2, 2, 2, 2, 3)
+        lift[:] = [(125, 62)]
+        plain(2, 2, 1, 3, 3); plain(2, 2, 2, 3, 4); with_error(2, 2, 2, 2, 2)
+        lift[:] = [(61, 0)]
+        plain(1, 3, 3, 3, 6, minW=0)
+        plain(2, 3, 2, 3, 4); with_error(2, 3, 2, 2, 3)
+        lift[:] = [(0, 0)]
     if setname == 'thorough':
         custom(2, 2, 3, 3, 4); custom(2, 3, 2, 3, 4); custom(2, 2, 2, 3, 4, err=True)
         plain(3, 2, 3, 3, 6); plain(3, 2, 4, 2, 5)
@@ -72,7 +87,7 @@ def frames_for(setname):
     # de-duplicate, keep order
     seen = set(); out = []
     for f in fr:
-        k = f[:4] + (f[4] < 0,)
+        k = f[:4] + (f[4] < 0,) + f[6:]
         if k in seen: continue
         seen.add(k); out.append(f)
     return out
@@ -86,16 +101,17 @@ def main():
     cost = [0] * ntus
     for f in sorted(fr, key=lambda f: -(len(f[2]) + sum(f[2]) + 3 * f[4])):
         k = cost.index(min(cost)); tus[k].append(f); cost[k] += 2 + len(f[2]) + sum(f[2]) + 3 * f[4]
-    order = {f[:4] + (f[4] < 0,): i for i, f in enumerate(fr)}
+    order = {f[:4] + (f[4] < 0,) + f[6:]: i for i, f in enumerate(fr)}
     for k, lst in enumerate(tus):
         with open(os.path.join(outdir, 'frames_%02d.cpp' % k), 'w') as o:
             o.write('#include "gram_frame.hpp"\nnamespace {\n')
             for f in lst:
-                NT, T, v, errs, maxc, is_seed = f
+                NT, T, v, errs, maxc, is_seed = f[:6]
+                liftargs = (', %d, %d' % f[6:]) if len(f) > 6 else ''
                 ar = ', '.join(str(x) for x in v)
                 er = ', '.join(str(i * 8 + j) for (i, j) in errs)
-                o.write('eg::Register' + ('Seed' if is_seed else '') + '<eg::Frame<%d, %d, std::integer_sequence<int%s>, std::integer_sequence<int%s>, %d>> r%d;\n'
-                        % (NT, T, (', ' + ar) if v else '', (', ' + er) if errs else '', maxc, order[f[:4] + (f[4] < 0,)]))
+                o.write('eg::Register' + ('Seed' if is_seed else '') + '<eg::Frame<%d, %d, std::integer_sequence<int%s>, std::integer_sequence<int%s>, %d%s>> r%d;\n'
+                        % (NT, T, (', ' + ar) if v else '', (', ' + er) if errs else '', maxc, liftargs, order[f[:4] + (f[4] < 0,) + f[6:]]))
             o.write('}\n')
     print(len(fr))
 
